@@ -217,12 +217,28 @@ use crate::common::ClosestNodes;
 #[kani::stub(ClosestNodes::subnets_count, stub_subnets_count)]
 #[kani::stub(Id::is_valid_for_ip, stub_valid)]
 fn c20_stats_equal_the_aggregate_over_cached_lookups() {
+    stats_case(true)
+}
+
+#[kani::proof]
+#[kani::unwind(22)]
+#[kani::stub(std::time::Instant::now, clock::mock_now)]
+#[kani::stub(getrandom::fill, fill_const)]
+#[kani::stub(ClosestNodes::dht_size_estimate, stub_dht_size_estimate)]
+#[kani::stub(ClosestNodes::subnets_count, stub_subnets_count)]
+#[kani::stub(Id::is_valid_for_ip, stub_valid)]
+fn c20_stats_equal_the_aggregate_when_another_target_is_cached() {
+    stats_case(false)
+}
+
+/// (whether the earlier entry is for the same target is concrete per harness: together they took
+/// 445 s, too long for the quick tier)
+fn stats_case(prev_same_target: bool) {
     let mut c = core(true);
     let target = id1(0x10);
     // pre-state: optionally one cached lookup (for the same target or another one), with the
     // statistics that the invariant prescribes for it
     let has_prev: bool = kani::any();
-    let prev_same_target: bool = kani::any();
     let pk: u8 = kani::any::<u8>() % 4;
     let (pd, pr, ps): (u8, u8, u8) = (kani::any(), kani::any(), kani::any());
     let prev_target = if prev_same_target { target } else { id1(0x90) };
@@ -256,9 +272,8 @@ fn c20_stats_equal_the_aggregate_over_cached_lookups() {
     assert!(stats(&c.routing_table) == want_b, "C20: the basic table's statistics equal the aggregate over the cached lookups");
     assert!(stats(&c.signed_peers_routing_table) == want_s, "C20: the signed-peers table's statistics equal the aggregate over the cached lookups");
     assert!(c.cached_iterative_queries.len() == (if keep_prev { 1 } else { 0 }) + (if online { 1 } else { 0 }));
-    kani::cover!(has_prev && prev_same_target && online && pk != k, "same target looked up again with another request kind");
-    kani::cover!(has_prev && prev_same_target && online && pk == 0 && k == 0, "the node's own id refreshed again");
-    kani::cover!(has_prev && !prev_same_target && online);
+    kani::cover!(has_prev && online && pk != k, "an earlier lookup with another request kind is cached");
+    kani::cover!(has_prev && online && pk == 0 && k == 0, "find_node after find_node (the node's own id every refresh)");
     kani::cover!(!online && has_prev);
     core::mem::forget(q);
     core::mem::forget(c);
